@@ -21,6 +21,7 @@ func main() {
 		"injlist":  func(f []string) string { return k8s.VerifInjList(verifio.KV(f)) },
 		"injbase":  func(f []string) string { return k8s.VerifInjBase(verifio.KV(f)) },
 		"injfiles": func(f []string) string { return k8s.VerifInjFiles(verifio.KV(f)) },
+		"tmpl":     func(f []string) string { return "-" },
 		"nm":       func(f []string) string { return configs.VerifName(verifio.KV(f)) },
 		"injwf":    func(f []string) string { return k8s.VerifInjWf(verifio.KV(f)) },
 		"wf":       func(f []string) string { return k8s.VerifWf(verifio.KV(f)) },
